@@ -104,6 +104,38 @@ CLAIMED['C02'] = dict(
          '63-combination table.',
     ref='4 C02, App. B',
     note='precedence classes by origin of the pushed expression')
+CLAIMED['C05'] = dict(
+    technique='classification of every dynamic-name attribute read and '
+              'every element read by reaching definitions of the callee '
+              '(guard-or-fallback idiom); path-sensitive dominance; '
+              'structure and propagation queries',
+    text='Full mechanism: every getattr-family call with a dynamic name and '
+         'every element read of an iterated client sequence in the shipped '
+         'packages is classified (guarded idiom / probe / engine-internal / '
+         'unguarded); the underscore refusal dominates the client read and '
+         'every cache store on all paths; with guards present expressions '
+         'run restricted with _getattr_/_getitem_ bound to the guards and '
+         'no builtins; both guards are installed on every namespace built '
+         'while rendering. Not decided: what the guard answers.',
+    ref='4 C05',
+    note='11 genuine unguarded channels are listed as known findings '
+         '(sequence-var-x, first/last-x, statistics, sort keys, tree '
+         'id/url/sort); namespace-designated mappings are not judged')
+CLAIMED['C12'] = dict(
+    technique='effect classification of every use of the sequence value on '
+              'the batch path; ownership query for the wrapped iterator',
+    text='Full mechanism: in the functions of the batch path no operation '
+         'that forces the whole sequence (len, iteration, truth test, '
+         'list/tuple/sorted..., slicing, negative index) is applied to the '
+         'sequence value, len() only in the handler of a failed probe, the '
+         'sequence is handed only to analysed or explicitly excepted '
+         'functions; next() on the wrapped iterator occurs only in '
+         'SequenceFromIter.__getitem__ under the index test, negative '
+         'indexes are rejected first. Not decided: the numeric look-ahead '
+         'bound.',
+    ref='4 C12, App. B',
+    note='sequence names derived from sequence_ensure_subscription results, '
+         'self.items and the opt parameter')
 PENDING = {}
 NA = {
     'C16': 'numerical identities over run-time data (sums, means, n vs n-1, '
